@@ -113,7 +113,7 @@ def main():
         obs('big.context', lambda: C.Context(*d1.union(d2)).crc32())
     # definition edit histories with several new names per call
     nh = 40 if tier == 'quick' else 400
-    pool_o, pool_p = names('o', 14), names('p', 14)
+    pool_o, pool_p = names('o', 14) + [''], names('p', 14) + ['']
     for w in range(nh):
         if w % nshards != shard:
             continue
